@@ -37,6 +37,8 @@ type conn struct {
 // ErrClosed represents a error.
 var ErrClosed = errors.New("network closed")
 
+var errTooManyPendingCalls = errors.New("hprose/rpc/udp: too many pending calls")
+
 func dial(ctx context.Context) (net.Conn, error) {
 	u := core.GetClientContext(ctx).URL
 	var d net.Dialer
@@ -64,10 +66,18 @@ func newConn(ctx context.Context, onConnect func(net.Conn) net.Conn, onClose fun
 	}, nil
 }
 
-func (c *conn) store(index int, resultChan chan data) {
+// register stores resultChan under the next request index that no pending call is using.
+func (c *conn) register(resultChan chan data) (index int, ok bool) {
 	c.lock.Lock()
-	c.results[index] = resultChan
-	c.lock.Unlock()
+	defer c.lock.Unlock()
+	for i := 0; i <= 0x7fff; i++ {
+		index = int(atomic.AddInt32(&c.counter, 1) & 0x7fff)
+		if _, used := c.results[index]; !used {
+			c.results[index] = resultChan
+			return index, true
+		}
+	}
+	return 0, false
 }
 
 func (c *conn) delete(index int) {
@@ -104,9 +114,11 @@ func (c *conn) Transport(ctx context.Context, request []byte) (response []byte, 
 	if len(request) > maxBodyLength {
 		return nil, core.ErrRequestEntityTooLarge
 	}
-	index := int(atomic.AddInt32(&c.counter, 1) & 0x7fff)
 	resultChan := make(chan data, 1)
-	c.store(index, resultChan)
+	index, ok := c.register(resultChan)
+	if !ok {
+		return nil, errTooManyPendingCalls
+	}
 	select {
 	case <-ctx.Done():
 		c.delete(index)
